@@ -212,6 +212,11 @@ fn(H1 + ".stream_send", params={"event": _ev.STREAM_EVENTS}, task="app",
        ("C18.ka.h11", "implies(isinstance(event, Response) and event.status_code >= 200 and old(self.keep_alive_requests) >= self.config.keep_alive_max_requests, "
         "trace_all('h11', 'x', x.headers[-1] == (b'connection', b'close')))", "C18,C06"),
        ("C02.h11.status", "implies(isinstance(event, Response), trace_all('h11', 'x', x.status_code == event.status_code))", "C02"),
+       # C02 "followed only by the server's own ... headers" / C11 "accept gives 101 ... and the extra
+       # headers": an informational response (the WebSocket 101) carries the stream's headers and the
+       # server's own, nothing else -- no `connection: close` next to its `connection: upgrade`
+       ("C11.h11.1xx-no-close", "implies(isinstance(event, Response) and event.status_code < 200, "
+        "trace_all('h11', 'x', len(x.headers) == len(event.headers) + len(call_result('Config.response_headers'))))", "C11,C02,C06"),
    ],
    props=("C02", "C06", "C12"))
 
